@@ -87,6 +87,7 @@ TiRules == {
   R("ti.base_product", "version", "none", "na"),
   R("ti.tree", "arch", "empty", "reject"), R("ti.tree", "arch", "none", "na"),
   R("ti.tree", "build_timestamp", "str", "reject"), R("ti.tree", "build_timestamp", "none", "na"), R("ti.tree", "build_timestamp", "zero", "reject"),
+  R("ti.tree", "build_timestamp", "nan", "na"),        \* a float that is not a number: only the [general] writer trips over it
   R("ti.variant", "id", "dash", "reject"), R("ti.variant", "id", "none", "na"), R("ti.variant", "id", "int", "na"),
   R("ti.variant", "type", "unknown", "reject"), R("ti.variant", "type", "layered", "reject"),
   R("ti.variant", "name", "none", "na"),
@@ -109,6 +110,7 @@ DiRules == {
   R("di.discinfo", "timestamp", "int", "na"),
   R("di.discinfo", "description", "empty", "reject"), R("di.discinfo", "description", "none", "na"), R("di.discinfo", "description", "int", "na"),
   R("di.discinfo", "arch", "empty", "reject"), R("di.discinfo", "arch", "none", "na"), R("di.discinfo", "arch", "int", "na"),
+  R("di.discinfo", "description", "bytes", "na"), R("di.discinfo", "arch", "bytes", "na"),      \* text fields take text only
   R("di.discinfo", "disc_numbers", "emptylist", "na"), R("di.discinfo", "disc_numbers", "none", "na"),
   R("di.discinfo", "disc_numbers", "str", "reject"), R("di.discinfo", "disc_numbers", "tuple", "na") }
 Rules == ComposeRules \cup CiRules \cup ImageRules \cup TiRules \cup DiRules
